@@ -1282,6 +1282,11 @@ class MatchGen(Gen):
             guard = None
             if binds and self.chance(1, 4):
                 guard = ("cmp", ("id", binds[0]), [("!=", ("int", 1))])
+            elif not binds and self.chance(1, 2):
+                # a guard that does not depend on bindings (also on arms with or-alternatives):
+                # it must be evaluated whichever alternative matched
+                guard = self.pick([("bool", False), ("bool", True), ("cmp", ("int", 1), [(">", ("int", 2))]),
+                                   ("cmp", subject, [("!=", ("int", 1))]) if subject[0] == "id" else ("bool", False)])
             body = ("block", [("tuple", [("int", 100 + i)] + [("id", b) for b in binds])])
             arms.append((alts, guard, body))
         els = ("block", [("int", -1)]) if self.chance(1, 3) else None
@@ -1299,6 +1304,8 @@ class MatchGen(Gen):
                 alts.append([strip_binds(self.pat(1, extra)), strip_binds(self.pat(1, extra))])
                 binds = []
             guard = ("cmp", ("id", binds[0]), [("!=", ("int", 1))]) if binds and self.chance(1, 4) else None
+            if not binds and self.chance(1, 2):
+                guard = self.pick([("bool", False), ("bool", True), ("cmp", ("int", 1), [(">", ("int", 2))])])
             arms.append((alts, guard, ("block", [("tuple", [("int", 200 + i)] + [("id", b) for b in binds])])))
         els = ("block", [("int", -2)]) if self.chance(1, 3) else None
         return ("match", [s1, s2], arms, els)
